@@ -13,7 +13,7 @@ RTF_FEATURES = {
     "cells-on-one-source-line": "table row written on one source line: A\\cell B\\cell\\row (twin: a line break after every \\cell)",
     "blank-page": "two consecutive \\page (an empty page in the middle) (twin: single \\page)",
     "image-only-page": "a page whose only content is a picture (twin: picture plus a paragraph)",
-    "adjacent-tables": "two tables separated by a short paragraph (< 20 characters) (twin: a long paragraph)",
+    "adjacent-tables": "two tables separated by a short paragraph (< 100 raw RTF characters / < 20 text characters) (twin: a long paragraph)",
     "hex-cp1252-range": "\\'80 (euro sign in cp1252) inside a paragraph (twin: \\'e9)",
     "surrogate-pair": "non-BMP character as \\u-10179?\\u-8704? (twin: BMP character \\u8364?)",
     "pict-hex-wrapped": "picture hex data wrapped into 64-character lines (twin: one line)",
@@ -48,7 +48,7 @@ def build_rtf(seed: int, feature: str | None = None, twin: bool = False):
             return [exp.text(tk.new(cls), pos) for _ in range(rng.randint(lo, hi))]
 
         def para(long=False):
-            n = 6 if long else rng.randint(1, 3)
+            n = 14 if long else rng.randint(1, 3)   # 'long' = well over the 100 raw characters below which the reader merges neighbouring tables
             parts = []
             for _ in range(n):
                 k = rng.random()
